@@ -439,6 +439,12 @@ class Body:
                 for o in self.succ(j):
                     es.append((j, o, None))
                 continue
+            mac = (t.get('mac') or '').strip(':').split('::')[0]
+            if mac in ('tracing', 'tracing_core', 'log'):
+                # logging-macro internals: branches carry no program condition
+                for o in self.succ(j):
+                    es.append((j, o, None))
+                continue
             by_dst = defaultdict(list)
             order = []
             for val, dst in t['targets']:
@@ -658,7 +664,7 @@ class Body:
                 fname = pr['f']
                 if fname.startswith('^'):
                     # closure capture: refer to the captured variable by name
-                    base = ('var', fname[1:])
+                    base = ('var', fname[1:].replace('__', '.'))
                     continue
                 # projection of an aggregate literal -> the operand
                 ub = unlet(base)
@@ -978,6 +984,13 @@ class Program:
 
     def bodies_matching(self, regex):
         return [b for b in self.bodies.values() if b.raw['promoted'] is None and re.search(regex, b.npath)]
+
+    def body_full(self, full_path):
+        """Body by its full pretty path including generic arguments (for impls that differ only there)."""
+        bs = [b for b in self.bodies.values() if b.raw['promoted'] is None and b.path == full_path]
+        if len(bs) != 1:
+            raise AnchorMissing('function not found (full path): %s (%d bodies)' % (full_path, len(bs)))
+        return bs[0]
 
     def async_body(self, path):
         """Body of an `async fn`: its coroutine closure."""
